@@ -738,7 +738,8 @@ class LegitFailure(Exception):
 #     text differing only in letter case); /corrupt routes without the check; GET routes without it
 #   upload secret: abort does not validate it; never validated; only its first byte compared; previous uploader's
 #     secret survives abort/timeout + re-allocation of the share number (seeded/C30-2, stale-secret family)
-#   write enabler: not checked (server.py); only a prefix compared (mutable.py)
+#   write enabler: not checked (server.py); only a prefix compared (mutable.py); checked only for the share numbers
+#     named in the vectors (seeded/C30-5: wrong enabler plants a new share in an existing slot)
 #   secrets: extra kinds tolerated; unknown kinds ignored; lease-secret length unchecked; empty secret accepted;
 #     undecodable secret headers replaced by a default
 # Finding on the originally pinned tree (fixed in /repo since): conflicting-duplicate-secret-accepted
